@@ -133,14 +133,14 @@ pub fn plan_for(prop: &str, tier: Tier) -> Option<PropPlan> {
             bound: format!("exhaustive for len<={} on every Cloneable configuration; proptest {} histories x <= {} ops", l, hc, ho),
             plans: vec![
                 Plan { shape: Shape::CloneThen, groups: G_LAYOUT | G_BACKEND | G_CONSTRAINT, random: None, spec: spec("C08", OPS_C01, MON_CLONE | MON_MODEL | MON_OWN, l.min(4)) },
-                Plan { shape: Shape::History, groups: G_LAYOUT | G_BACKEND | G_CONSTRAINT, random: Some((hc, ho)), spec: spec("C08", OPS_C01 | ops(&[OP_CLONE, OP_CLONE_EMPTY, OP_DRAIN]), MON_CLONE | MON_MODEL | MON_OWN, l) },
+                Plan { shape: Shape::History, groups: G_LAYOUT | G_BACKEND | G_CONSTRAINT, random: Some((hc, ho)), spec: spec("C08", OPS_C01 | ops(&[OP_CLONE, OP_CLONE_EMPTY, OP_DRAIN, OP_BULK_PUSH]), MON_CLONE | MON_MODEL | MON_OWN, l) },
             ],
         }),
         "C09" => Some(PropPlan {
             rule: "case = (state, cloneable source kind {ElementRef, ElementMut, drained element, pop/remove/swap_remove handle}, chain depth 1..3, 0..2 LazyClone::clone copies, consumption of each lazy {push, insert, splice item, downcast, dropped unconsumed}); oracle: registry clone/drop counters (no clone before consumption, original cloned exactly once per consumption, nothing destroyed), destination/source sequences; non-trivial = >=1 consumption, or depth>=2, or non-reference source; distinct = distinct (configuration, pick sequence)",
             bound: format!("exhaustive for len<=2 on every Cloneable tracked configuration; proptest {} histories x <= {} ops", hc, ho),
             plans: vec![
-                Plan { shape: Shape::Step, groups: G_LAYOUT | G_BACKEND | G_CONSTRAINT, random: None, spec: spec("C09", ops(&[OP_LAZY]), MON_CLONE | MON_MODEL | MON_OWN, 2) },
+                Plan { shape: Shape::Step, groups: G_LAYOUT | G_BACKEND | G_CONSTRAINT, random: None, spec: spec("C09", ops(&[OP_LAZY, OP_SPLICE]), MON_CLONE | MON_MODEL | MON_OWN, 2) },
                 Plan { shape: Shape::History, groups: G_LAYOUT | G_BACKEND | G_CONSTRAINT, random: Some((hc, ho)), spec: spec("C09", ops(&[OP_LAZY, OP_PUSH, OP_INSERT, OP_REMOVE, OP_POP, OP_SPLICE]), MON_CLONE | MON_MODEL | MON_OWN, l) },
             ],
         }),
@@ -161,6 +161,7 @@ pub fn plan_for(prop: &str, tier: Tier) -> Option<PropPlan> {
                 Plan { shape: Shape::Step, groups: G_STACK, random: None, spec: spec("C11", OPS_C01 | OPS_C02 | ops(&[OP_CLONE, OP_CLONE_EMPTY]), MON_MODEL | MON_NOALLOC | MON_CAP | MON_CLONE, 8) },
                 Plan { shape: Shape::CloneThen, groups: G_STACK, random: None, spec: spec("C11", OPS_C01, MON_MODEL | MON_NOALLOC | MON_CAP | MON_CLONE, 8) },
                 Plan { shape: Shape::History, groups: G_STACK, random: Some((hc, ho)), spec: spec("C11", OPS_C01 | OPS_C02 | ops(&[OP_CLONE, OP_CLONE_EMPTY, OP_DROP_NEW]), MON_MODEL | MON_NOALLOC | MON_CAP | MON_CLONE, 8) },
+                Plan { shape: Shape::Threshold, groups: G_STACK, random: None, spec: spec("C11", OPS_C01, MON_MODEL | MON_NOALLOC | MON_CAP, 8) },
             ],
         }),
         "C19" => Some(PropPlan {
@@ -171,6 +172,7 @@ pub fn plan_for(prop: &str, tier: Tier) -> Option<PropPlan> {
                 Plan { shape: Shape::Step, groups: G_STACK, random: None, spec: spec("C19", OPS_C01 | OPS_C02 | ops(&[OP_CLONE, OP_CLONE_EMPTY]), MON_MODEL | MON_NOALLOC | MON_CAP | MON_CLONE | MON_OWN, 8) },
                 Plan { shape: Shape::CloneThen, groups: G_STACK, random: None, spec: spec("C19", OPS_C01, MON_MODEL | MON_NOALLOC | MON_CAP | MON_CLONE | MON_OWN, 8) },
                 Plan { shape: Shape::History, groups: G_STACK, random: Some((hc, ho)), spec: spec("C19", OPS_C01 | OPS_C02 | ops(&[OP_CLONE, OP_CLONE_EMPTY, OP_DROP_NEW]), MON_MODEL | MON_NOALLOC | MON_CAP | MON_CLONE | MON_OWN, 8) },
+                Plan { shape: Shape::Threshold, groups: G_STACK, random: None, spec: spec("C19", OPS_C01, MON_MODEL | MON_NOALLOC | MON_CAP | MON_OWN, 8) },
             ],
         }),
         "C12" => Some(PropPlan {
